@@ -82,9 +82,9 @@ def run(ctx):
         if C.known_match(known, key):
             ctx.known_finding(C.known_match(known, key))
         else:
-            ctx.violation({"kind": "property-fails-on-implementation", "crystal": c["crystal"], "sg": c["sg"], "failed_clauses": bad,
+            ctx.violation({"kind": "property-fails-on-implementation", "crystal": c["crystal"], "sg": c["sg"], "failed_clauses": bad, "tol": c.get("tol", 1e-3),
                            "presentation": c["pres"], "key": key, "broken_obligation": broken,
-                           "call": "SymmetryAnalyzer(crystal, symmetry_tol=1e-3).get_conventional_system()"}, found_input=True)
+                           "call": "SymmetryAnalyzer(crystal, symmetry_tol=tol).get_conventional_system()"}, found_input=True)
     bad_reuse = [r for r in reuse_rows if "error" in r or not r.get("same")]
     ctx.coverage["analyzer_reuse"] = {"sequences_checked": len(reuse_rows), "differences": bad_reuse[:5]}
     ctx.add_cases(len(reuse_rows), len(reuse_rows))
@@ -110,7 +110,7 @@ def replay(ctx, rep):
     if "crystal" not in rep:
         print("replay: nothing to re-run")
         return
-    rows = H.run_impl([{"id": 0, "crystal": rep["crystal"]}], jobs=1)
+    rows = H.run_impl([dict({"id": 0, "crystal": rep["crystal"]}, **({"tol": rep["tol"]} if rep.get("tol") else {}))], jobs=1)
     r = rows[0]
     if "error" in r or H.c05_predicate(r):
         ctx.violation(rep, found_input=True)
